@@ -598,7 +598,8 @@ void rename(const std::string& old_filename, const std::string& new_filename) {
 
 void unlink(const string& filename, bool recursive) {
   if (recursive) {
-    if (isdir(filename)) {
+    // Do not follow symbolic links: a link to a directory is deleted as a link
+    if (lisdir(filename)) {
       for (const string& item : list_directory(filename)) {
         unlink(filename + "/" + item, true);
       }
